@@ -207,8 +207,9 @@ def run(rep, tier, seed):
             fx = FieldDescriptor(id=f.id, value=mk(bits_of(f.value), rnd.choice([L, R])), position=f.position)
             add(b, FieldDescriptor, fx, 'field-descriptor', ' '.join(['J', 'field', fi[0], str(fi[1]), str(fx.position), raw(fx.value)]))
             other = FieldDescriptor(id=f.id, value=mk(bits_of(f.value) + '1'), position=f.position)
-            if impl_outcome(lambda: (fx == other, fx == FieldDescriptor(id=f.id, value=f.value, position=f.position + 1), fx == 'x')) != ('OK', (False, False, False)):
-                rep.violation('property', 'field descriptor compares equal to one with another value, another position or to a string', dict(layer='json', op='field-eq', json=fx.json()))
+            other_id = [g.id for g in pd.fields if g.id != f.id]
+            if impl_outcome(lambda: (fx == other, fx == FieldDescriptor(id=f.id, value=f.value, position=f.position + 1), fx == 'x', bool(other_id) and fx == FieldDescriptor(id=other_id[0], value=f.value, position=f.position))) != ('OK', (False, False, False, False)):
+                rep.violation('property', 'field descriptor compares equal to one with another value, another position, another id or to a string', dict(layer='json', op='field-eq', json=fx.json()))
         # header descriptors as the header parsers return them
         hp = header_parser_for(stack)
         oh = impl_outcome(lambda: hp.parse(Buffer(pkt, len(pkt) * 8)))
